@@ -230,6 +230,9 @@ def start(argv):
     else:
         image_data = data[18:]
 
+    if len(image_data) != orig_len * 400:
+        sys.exit("Image data is {} bytes instead of {}.".format(len(image_data), orig_len * 400))
+
     bitmap = []
     for byte in image_data:
         if veftype == 8:
